@@ -62,4 +62,7 @@ def mapErr : Nb.C06.Err → Nb.Py.Err
 
 def ofShape (l : List Nat) : V := ofList (l.map (fun (n : Nat) => V.int (n : Int)))
 
+def ofSeg (s : Segment) : V := .cons (.int s.offset) (.cons (.int (s.length : Int)) .nil)
+def ofSegs (l : List Segment) : V := ofList (l.map ofSeg)
+
 end Nb.C06
